@@ -62,9 +62,74 @@ func (c codeSym) Name() string {
 }
 
 type weightUse struct {
-	Fn   *types.Func
-	Args []codeSym
-	Call *ast.CallExpr
+	Fn   *types.Func // nil for a direct table lookup
+	Args []codeSym   // the metric codes the weight depends on, in order
+	Call ast.Expr    // the call or index expression
+	// generalised forms
+	ArgExprs []ast.Expr // all arguments of the call (code and constant ones)
+	CodeIdx  []int      // positions of the code arguments in ArgExprs
+	Table    ast.Expr   // base of a direct lookup table[code]...[code]
+	name     string
+}
+
+func (u weightUse) Name() string {
+	if u.name != "" {
+		return u.name
+	}
+	if u.Fn != nil {
+		return u.Fn.Name()
+	}
+	return "table"
+}
+
+// eval tabulates one cell of the weight: the helper (or table) applied to the given codes.
+func (u weightUse) eval(p *Pkg, codes []int) (Val, error) {
+	ce := newCEnv(p, nil)
+	if u.Table != nil {
+		v, err := ce.eval(u.Table)
+		if err != nil {
+			return Val{}, err
+		}
+		for _, c := range codes {
+			if v.K != VList {
+				return Val{}, undecidedf(u.Call, "lookup in something that is not a table")
+			}
+			if c < 0 || c >= len(v.T) {
+				return Val{}, &panicked{pos: u.Call.Pos(), msg: fmt.Sprintf("index %d out of range of the weight table", c)}
+			}
+			v = v.T[c]
+		}
+		return v, nil
+	}
+	fd := p.FuncObj[u.Fn]
+	if u.ArgExprs == nil {
+		var args []Val
+		for _, c := range codes {
+			args = append(args, vInt(int64(c)))
+		}
+		return ce.callFunc(fd, args, u.Call)
+	}
+	args := make([]Val, len(u.ArgExprs))
+	k := 0
+	for i, a := range u.ArgExprs {
+		isCode := false
+		for _, ci := range u.CodeIdx {
+			if ci == i {
+				isCode = true
+			}
+		}
+		if isCode {
+			args[i] = vInt(int64(codes[k]))
+			k++
+			continue
+		}
+		v, err := ce.eval(a)
+		if err != nil {
+			return Val{}, err
+		}
+		args[i] = v
+	}
+	return ce.callFunc(fd, args, u.Call)
 }
 
 type modSite struct {
@@ -86,14 +151,15 @@ type symCtx struct {
 }
 
 type sEnv struct {
-	c     *symCtx
-	vars  map[types.Object]*Ex
-	codes map[types.Object]codeSym
-	depth int
+	c       *symCtx
+	vars    map[types.Object]*Ex
+	codes   map[types.Object]codeSym
+	depth   int
+	results []types.Object // named results of the function being evaluated (for naked returns)
 }
 
 func (e *sEnv) clone() *sEnv {
-	n := &sEnv{c: e.c, vars: map[types.Object]*Ex{}, codes: map[types.Object]codeSym{}, depth: e.depth}
+	n := &sEnv{c: e.c, vars: map[types.Object]*Ex{}, codes: map[types.Object]codeSym{}, depth: e.depth, results: e.results}
 	for k, v := range e.vars {
 		n.vars[k] = v
 	}
@@ -301,6 +367,33 @@ func (e *sEnv) ex(x ast.Expr) (*Ex, error) {
 		case token.REM:
 			return mkCall("imod", a, b), nil
 		}
+	case *ast.IndexExpr:
+		// direct lookup weightTable[code] (possibly two-dimensional)
+		var idxExprs []ast.Expr
+		base := ast.Expr(n)
+		for {
+			ix, ok := base.(*ast.IndexExpr)
+			if !ok {
+				break
+			}
+			idxExprs = append([]ast.Expr{ix.Index}, idxExprs...)
+			base = ix.X
+		}
+		if p.isPkgLevelOrConst(base) {
+			var cs []codeSym
+			var names []string
+			for _, ie := range idxExprs {
+				c, err := e.codeOf(ie)
+				if err != nil {
+					return nil, err
+				}
+				cs = append(cs, c)
+				names = append(names, c.Name())
+			}
+			e.c.uses = append(e.c.uses, weightUse{Args: cs, Call: n, Table: base, name: types.ExprString(base)})
+			return mkSym("W(" + strings.Join(names, "|") + ")"), nil
+		}
+		return nil, e.fail(x, "index expression outside the formula language")
 	case *ast.CallExpr:
 		// conversions
 		if tv, ok := info.Types[n.Fun]; ok && tv.IsType() && len(n.Args) == 1 {
@@ -381,6 +474,52 @@ func (e *sEnv) ex(x ast.Expr) (*Ex, error) {
 				return mkSym("W(" + strings.Join(names, "|") + ")"), nil
 			}
 		}
+		// generalised weight helper: float result, at least one metric-code argument, every
+		// other argument a package-level table or constant (e.g. weight(ciaWeights, code))
+		if sig.Recv() == nil && sig.Results().Len() == 1 && isFloat(sig.Results().At(0).Type()) && len(n.Args) >= 2 {
+			var cs []codeSym
+			var idx []int
+			var names []string
+			okW := true
+			for i, a := range n.Args {
+				at := info.Types[a].Type
+				if at != nil && isUint8(at) {
+					c, err := e.codeOf(a)
+					if err != nil {
+						okW = false
+						break
+					}
+					cs = append(cs, c)
+					idx = append(idx, i)
+					names = append(names, c.Name())
+					continue
+				}
+				if at != nil && isFloat(at) {
+					okW = false
+					break
+				}
+				if !e.c.p.isPkgLevelOrConst(a) {
+					okW = false
+					break
+				}
+			}
+			if okW && len(cs) > 0 {
+				label := fn.Name()
+				for i, a := range n.Args {
+					isC := false
+					for _, ci := range idx {
+						if ci == i {
+							isC = true
+						}
+					}
+					if !isC {
+						label += "[" + types.ExprString(a) + "]"
+					}
+				}
+				e.c.uses = append(e.c.uses, weightUse{Fn: fn, Args: cs, Call: n, ArgExprs: n.Args, CodeIdx: idx, name: label})
+				return mkSym("W(" + strings.Join(names, "|") + ")"), nil
+			}
+		}
 		// integer-indexed table function (depth tables): opaque node
 		if sig.Recv() == nil && sig.Params().Len() >= 1 && sig.Results().Len() == 1 && isFloat(sig.Results().At(0).Type()) {
 			allInt := true
@@ -441,6 +580,12 @@ func (e *sEnv) ex(x ast.Expr) (*Ex, error) {
 					return nil, err
 				}
 				callee.vars[po] = v
+			}
+		}
+		for _, ro := range resultObjs(info, fd) {
+			if ro != nil && isFloat(ro.Type()) {
+				callee.results = append(callee.results, ro)
+				callee.vars[ro] = mkConst(new(big.Rat))
 			}
 		}
 		r, returned, err := callee.block(fd.Body.List)
@@ -690,6 +835,31 @@ func (e *sEnv) block(stmts []ast.Stmt) (*Ex, bool, error) {
 				e.vars[identObj(p.Info, st.Lhs[0])] = v
 				continue
 			}
+			if len(st.Lhs) > 1 && len(st.Rhs) == 1 {
+				// a, b, c := f()  with f returning several float values
+				v, err := e.ex(st.Rhs[0])
+				if err != nil {
+					return nil, false, err
+				}
+				if v.Op != "tuple" || len(v.Args) != len(st.Lhs) {
+					return nil, false, e.fail(s, "tuple assignment from a single value")
+				}
+				for k, l := range st.Lhs {
+					id, ok := l.(*ast.Ident)
+					if !ok {
+						return nil, false, e.fail(s, "tuple assignment target")
+					}
+					if id.Name == "_" {
+						continue
+					}
+					o := identObj(p.Info, id)
+					if o == nil || !isFloat(o.Type()) {
+						return nil, false, e.fail(s, "tuple assignment of a non-float value")
+					}
+					e.vars[o] = v.Args[k]
+				}
+				continue
+			}
 			if len(st.Lhs) != len(st.Rhs) {
 				return nil, false, e.fail(s, "tuple assignment")
 			}
@@ -699,6 +869,31 @@ func (e *sEnv) block(stmts []ast.Stmt) (*Ex, bool, error) {
 				}
 			}
 		case *ast.ReturnStmt:
+			if len(st.Results) == 0 && len(e.results) > 0 {
+				var parts []*Ex
+				for _, r := range e.results {
+					v := e.vars[r]
+					if v == nil {
+						return nil, false, e.fail(s, "named result %s returned without a value", r.Name())
+					}
+					parts = append(parts, v)
+				}
+				if len(parts) == 1 {
+					return parts[0], true, nil
+				}
+				return &Ex{Op: "tuple", Args: parts}, true, nil
+			}
+			if len(st.Results) > 1 {
+				var parts []*Ex
+				for _, r := range st.Results {
+					v, err := e.ex(r)
+					if err != nil {
+						return nil, false, err
+					}
+					parts = append(parts, v)
+				}
+				return &Ex{Op: "tuple", Args: parts}, true, nil
+			}
 			if len(st.Results) != 1 {
 				return nil, false, e.fail(s, "return arity")
 			}
@@ -733,7 +928,15 @@ func (e *sEnv) block(stmts []ast.Stmt) (*Ex, bool, error) {
 					return nil, false, err
 				}
 			}
-			ite := func(a, b *Ex) *Ex {
+			var ite func(a, b *Ex) *Ex
+			ite = func(a, b *Ex) *Ex {
+				if a != nil && b != nil && a.Op == "tuple" && b.Op == "tuple" && len(a.Args) == len(b.Args) {
+					parts := make([]*Ex, len(a.Args))
+					for k := range a.Args {
+						parts[k] = ite(a.Args[k], b.Args[k])
+					}
+					return &Ex{Op: "tuple", Args: parts}
+				}
 				if swap {
 					return mkIte(c, b, a)
 				}
@@ -895,8 +1098,42 @@ func (w *World) rulesFormula(out *[]Obligation) {
 				add(false, fam+".formula", sm.Method, nil, "scoring method missing")
 				continue
 			}
-			// route obligations: every byte read is one whole metric code, or a raw test decided by truth table
-			for _, r := range p.readersIn(fd.Body) {
+			// route obligations: every byte read — in the method and in the package functions it
+			// calls on the same object — is one whole metric code, or a raw test decided by truth table
+			var routeReaders []Reader
+			{
+				seenF := map[*ast.FuncDecl]bool{}
+				work := []*ast.FuncDecl{fd}
+				for len(work) > 0 {
+					f := work[len(work)-1]
+					work = work[:len(work)-1]
+					if seenF[f] || f.Body == nil {
+						continue
+					}
+					seenF[f] = true
+					own := false
+					for _, o := range scoreMethods {
+						if f != fd && p.method(o.Method) == f {
+							own = true // another score method: it has its own obligations
+						}
+					}
+					if own {
+						continue
+					}
+					routeReaders = append(routeReaders, p.readersIn(f.Body)...)
+					ast.Inspect(f.Body, func(n ast.Node) bool {
+						if c, ok := n.(*ast.CallExpr); ok {
+							if fn := calleeOf(p.Info, c); fn != nil && fn.Pkg() == p.P.Types {
+								if d := p.FuncObj[fn]; d != nil && d != p.method("Get") && d != p.method("Set") {
+									work = append(work, d)
+								}
+							}
+						}
+						return true
+					})
+				}
+			}
+			for _, r := range routeReaders {
 				inst := fmt.Sprintf("%s.read[%s]", sm.Method, strings.Join(r.Metrics, "+"))
 				if r.Exact != "" {
 					add(true, fam+".route", inst, r.Expr, "reads code("+r.Exact+") in Set's bit order")
@@ -942,6 +1179,8 @@ func (w *World) rulesFormula(out *[]Obligation) {
 				add(false, fam+".formula", sm.Method, fd, "no oracle formula")
 				continue
 			}
+			t = normIte(t)
+			want = normIte(want)
 			if t.String() == want.String() {
 				add(true, fam+".formula", sm.Method, fd, "canonical tree equals the specification equation: "+clip(t.String()))
 			} else {
@@ -1011,6 +1250,7 @@ func (w *World) rulesFormula(out *[]Obligation) {
 		if a == nil || b == nil {
 			continue
 		}
+		a, b = normIte(a), normIte(b)
 		same := a.String() == b.String()
 		wantSame := sm.Method != "EnvironmentalScore"
 		ok := same == wantSame
@@ -1159,12 +1399,11 @@ func (w *World) rulesWeights(p *Pkg, ctx *symCtx, fam string, out *[]Obligation)
 		for _, a := range u.Args {
 			names = append(names, a.Name())
 		}
-		key := u.Fn.Name() + "(" + strings.Join(names, "|") + ")"
+		key := u.Name() + "(" + strings.Join(names, "|") + ")"
 		if done[key] {
 			continue
 		}
 		done[key] = true
-		fd := p.FuncObj[u.Fn]
 		// domains
 		var doms [][]string
 		var bases []string
@@ -1185,14 +1424,12 @@ func (w *World) rulesWeights(p *Pkg, ctx *symCtx, fam string, out *[]Obligation)
 		var rec func(i int)
 		rec = func(i int) {
 			if i == len(doms) {
-				var args []Val
 				var vals []string
 				for j := range doms {
-					args = append(args, vInt(int64(cur[j])))
 					vals = append(vals, doms[j][cur[j]])
 				}
 				vkey := strings.Join(vals, "|")
-				v, err := newCEnv(p, nil).callFunc(fd, args, u.Call)
+				v, err := u.eval(p, cur)
 				if err != nil {
 					okAll = false
 					if _, isP := err.(*panicked); isP {
@@ -1318,4 +1555,27 @@ func containsPanic(why []string) bool {
 
 func init() {
 	registerGroup("formula", func(w *World, out *[]Obligation) { w.rulesFormula(out) })
+}
+
+// isPkgLevelOrConst: the expression denotes a package-level variable (a table) or a constant.
+func (p *Pkg) isPkgLevelOrConst(e ast.Expr) bool {
+	if tv, ok := p.Info.Types[e]; ok && tv.Value != nil {
+		return true
+	}
+	switch x := e.(type) {
+	case *ast.ParenExpr:
+		return p.isPkgLevelOrConst(x.X)
+	case *ast.Ident:
+		o := p.Info.Uses[x]
+		if v, ok := o.(*types.Var); ok && v.Parent() == p.P.Types.Scope() {
+			return true
+		}
+	case *ast.SliceExpr:
+		return x.Low == nil && x.High == nil && p.isPkgLevelOrConst(x.X)
+	case *ast.IndexExpr:
+		if _, ok := constUint(p.Info, x.Index); ok {
+			return p.isPkgLevelOrConst(x.X)
+		}
+	}
+	return false
 }
